@@ -23,7 +23,7 @@ func init() {
 		Fn:          c15,
 		Level:       "exploration",
 		Builds:      []string{"default", "purego"},
-		Rule:        "the same driver source is compiled with and without -tags purego; for every catalogue column built on a two-variant codec (32 generated + Bool + UUID, plus Point/Interval/wrappers that sit on them) it decodes generated raw inputs (exhaustive: every value of 8- and 16-bit element types, every input byte 0..255 for Bool; boundary+random limbs for wider ones; row counts 0,1,2,3,7,8,9,1000; inputs short by 1..size bytes) into {fresh, used-then-reset} columns and re-encodes through EncodeColumn into {empty, junk-prefixed 1..17 B} buffers and WriteColumn+Flush; each step appends a transcript line (case id -> hash of bytes / values / error class); the parent aligns both transcripts by case id. Non-trivial = >=1 row; distinct = transcript case ids with rows>0",
+		Rule:        "the same driver source is compiled with and without -tags purego; for every catalogue column built on a two-variant codec (32 generated + Bool + UUID, plus Point/Interval/wrappers that sit on them) it decodes generated raw inputs (exhaustive: every value of 8- and 16-bit element types, every input byte 0..255 for Bool; boundary+random limbs for wider ones; row counts 0,1,2,3,7,8,9,1000; inputs short by 1..size bytes) into {fresh, used-then-reset} columns and re-encodes through EncodeColumn into {empty, junk-prefixed 1..17 B} buffers and WriteColumn+Flush (prefix chained, writer buffer pre-filled before NewWriter, bytes appended directly between two columns); each step appends a transcript line (case id -> hash of bytes / values / error class); the parent aligns both transcripts by case id. Non-trivial = >=1 row; distinct = transcript case ids with rows>0",
 		Assumptions: []string{"error classes compared are {nil, short read, bad value}; after a failed decode only the error class is compared", "ColRawOf exists only in the default build and is excluded"},
 		MinDistinct: 500,
 		Post:        c15Post,
@@ -190,6 +190,16 @@ func c15Codec(t *c15T, r *core.Run, e val.Entry, ty *ref.Type, id string, raw []
 			c.WriteColumn(w)
 			_, err := w.Flush()
 			t.line(sub+"|WriteColumn", fmt.Sprintf("%016x len=%d err=%s", core.Hash(sink.String()), sink.Len(), errClass(err)), rows)
+			// other starting states of the writer's buffer: pre-filled before NewWriter, and bytes
+			// appended to it directly between two columns
+			sink.Reset()
+			pb := &proto.Buffer{Buf: append([]byte(nil), prefix...)}
+			w = proto.NewWriter(&sink, pb)
+			c.WriteColumn(w)
+			pb.Buf = append(pb.Buf, 0xC1, 0xC2, 0xC3)
+			c.WriteColumn(w)
+			_, err = w.Flush()
+			t.line(sub+"|WriteColumn/prefilled", fmt.Sprintf("%016x len=%d err=%s", core.Hash(sink.String()), sink.Len(), errClass(err)), rows)
 		}); p != "" {
 			t.line(sub+"|encode", "PANIC "+firstLineOf(p), rows)
 		}
